@@ -593,19 +593,19 @@ macro "nn_close" g:ident h5:ident h6:ident : tactic =>
                  PFromBody.extParams, PFromBody.resetUPT]; nn_arith $h5)))
 
 theorem nn_stepA (h : Nat) {b : Buf} {m0 : NnNum} {o i : Nat} {pf : PFromBody} (c : UInt8) (hb : b[i]? = some c)
-    (hmv : multipleValsOk h = mv) (hI : NnInv mv b m0 o i pf)
+    (hI : NnInv mv b m0 o i pf)
     (hg : pf.state = .init ∨ pf.state = .name ∨ pf.state = .nameOrURI ∨ pf.state = .nameOrURIEnd) :
     nnStepOk mv b m0 o (naStepA h b i c pf) := by
   have hib := get?_lt hb
   have hI' := hI
   obtain ⟨h1, h2, h3, h4, h5, h6⟩ := hI
   unfold naStepA
-  rcases hg with g | g | g | g <;> cases mv <;> simp only [nnPend, nnGapM, nnEqM, g] at h5 <;> simp +decide only [g, hmv, Bool.false_eq_true, ↓reduceIte] <;> repeat' split
+  rcases hg with g | g | g | g <;> simp only [nnPend, nnGapM, nnEqM, g] at h5 <;> simp +decide only [g, Bool.false_eq_true, ↓reduceIte] <;> repeat' split
   all_goals first
     | exact nn_naLWS h hI' (by simp [nnAtPos, g])
     | exact nn_moreValues h hI' hib
     | exact nn_ok_err hI'.out (by decide)
-    | (refine nn_naLWS h ?_ (by simp [nnAtPos]); nn_close g h5 h6)
+    | (refine nn_naLWS h ?_ ?_ <;> first | nn_close g h5 h6 | simp [nnAtPos])
     | (refine nn_ok_cont ?_; nn_close g h5 h6)
 
 theorem nn_stepQ (h : Nat) {b : Buf} {m0 : NnNum} {o i : Nat} {pf : PFromBody} (c : UInt8) (hb : b[i]? = some c)
@@ -616,7 +616,7 @@ theorem nn_stepQ (h : Nat) {b : Buf} {m0 : NnNum} {o i : Nat} {pf : PFromBody} (
   have hI' := hI
   obtain ⟨h1, h2, h3, h4, h5, h6⟩ := hI
   unfold naStepQ
-  rcases hg with g | g | g <;> cases mv <;> simp only [nnPend, nnGapM, nnEqM, g] at h5 <;> simp +decide only [g, Bool.false_eq_true, ↓reduceIte] <;> repeat' split
+  rcases hg with g | g | g <;> simp only [nnPend, nnGapM, nnEqM, g] at h5 <;> simp +decide only [g, Bool.false_eq_true, ↓reduceIte] <;> repeat' split
   all_goals first
     | exact nn_naLWS h hI' (by simp [nnAtPos, g])
     | exact nn_ok_more hI'.saveS
@@ -684,14 +684,14 @@ theorem nn_nameWS {b : Buf} {m0 : NnNum} {o i n : Nat} {pf : PFromBody} (hI : Nn
     (hin : i ≤ n) (hn : n ≤ b.size) (hrun : Run isLWSch b i n) : NnInv mv b m0 o n (naNameWS pf i) := by
   obtain ⟨h1, h2, h3, h4, h5, h6⟩ := hI
   unfold naNameWS
-  rcases hg with g | g | g | g <;> cases mv <;> simp only [nnPend, nnGapM, nnEqM, g] at h5 <;> simp +decide only [g, Bool.false_eq_true, ↓reduceIte] <;> nn_close g h5 h6
+  rcases hg with g | g | g | g <;> simp only [nnPend, nnGapM, nnEqM, g] at h5 <;> simp +decide only [g, Bool.false_eq_true, ↓reduceIte] <;> nn_close g h5 h6
 
 theorem nn_paramStart {b : Buf} {m0 : NnNum} {o i : Nat} {pf : PFromBody} (hI : NnInv mv b m0 o i pf) (hib : i < b.size)
     (hg : pf.state = .newParam ∨ pf.state = .newPossibleParam ∨ pf.state = .paramName ∨ pf.state = .possibleParamName) :
     NnInv mv b m0 o (i + 1) (naParamsOffs (naParamStart pf i) i) := by
   obtain ⟨h1, h2, h3, h4, h5, h6⟩ := hI
   unfold naParamsOffs naParamStart
-  rcases hg with g | g | g | g <;> cases mv <;> simp only [nnPend, nnGapM, nnEqM, g] at h5 <;> simp +decide only [g, Bool.false_eq_true, ↓reduceIte] <;> split <;>
+  rcases hg with g | g | g | g <;> simp only [nnPend, nnGapM, nnEqM, g] at h5 <;> simp +decide only [g, Bool.false_eq_true, ↓reduceIte] <;> split <;>
     nn_close g h5 h6
 
 /-- `case fbNewParam, fbNewPossibleParam, fbParamName, fbPossibleParamName:` -/
@@ -756,7 +756,7 @@ theorem nn_valWS_false {b : Buf} {m0 : NnNum} {o i n : Nat} {pf : PFromBody} (hI
     NnInv mv b m0 o i (naValWS pf i n false) := by
   obtain ⟨h1, h2, h3, h4, h5, h6⟩ := hI
   unfold naValWS
-  rcases hg with g | g | g | g <;> cases mv <;> simp only [nnPend, nnGapM, nnEqM, g] at h5 <;> simp +decide only [g, Bool.false_eq_true, ↓reduceIte] <;> nn_close g h5 h6
+  rcases hg with g | g | g | g <;> simp only [nnPend, nnGapM, nnEqM, g] at h5 <;> simp +decide only [g, Bool.false_eq_true, ↓reduceIte] <;> nn_close g h5 h6
 
 /-- `case fbNewParamVal, fbNewPossibleVal, fbParamVal, fbPossibleVal:` -/
 theorem nn_stepV (h : Nat) {b : Buf} {m0 : NnNum} {o i : Nat} {pf : PFromBody} (c : UInt8) (hb : b[i]? = some c)
@@ -797,7 +797,7 @@ theorem nn_stepVE (h : Nat) {b : Buf} {m0 : NnNum} {o i : Nat} {pf : PFromBody} 
   have hC := nn_commaAfterWS h hI hib pf.vend (by rcases hg with g | g <;> simp [g])
   obtain ⟨h1, h2, h3, h4, h5, h6⟩ := hI
   unfold naStepVE
-  rcases hg with g | g <;> cases mv <;> simp only [nnPend, nnGapM, nnEqM, g] at h5 <;> simp +decide only [g, Bool.false_eq_true, ↓reduceIte] <;> repeat' split
+  rcases hg with g | g <;> simp only [nnPend, nnGapM, nnEqM, g] at h5 <;> simp +decide only [g, Bool.false_eq_true, ↓reduceIte] <;> repeat' split
   all_goals first
     | exact hC
     | exact nn_ok_err hI'.out (by decide)
